@@ -142,6 +142,7 @@ func (bsp *batchSpanProcessor) OnEnd(s ReadOnlySpan) {
 	if bsp.stopped.Load() {
 		return
 	}
+	verifPoint("bsp.OnEnd.checked")
 
 	// Do not enqueue spans if we are just going to drop them.
 	if bsp.e == nil {
@@ -156,6 +157,7 @@ func (bsp *batchSpanProcessor) Shutdown(ctx context.Context) error {
 	var err error
 	bsp.stopOnce.Do(func() {
 		bsp.stopped.Store(true)
+		verifPoint("bsp.Shutdown.stored")
 		wait := make(chan struct{})
 		go func() {
 			close(bsp.stopCh)
@@ -197,6 +199,7 @@ func (bsp *batchSpanProcessor) ForceFlush(ctx context.Context) error {
 	if bsp.stopped.Load() {
 		return nil
 	}
+	verifPoint("bsp.ForceFlush.checked")
 
 	var err error
 	if bsp.e != nil {
